@@ -191,14 +191,11 @@ def s5(ck, an):
     ck.check(ok, "ARGFLOW", "S5.one-discontinuation-at-expiry", ff.f.short, ff.f.loc, "a future yields exactly one EventContractDiscontinued(time=self.expiry, contract=self)",
              f"Future.make_events returns {ast.unparse(r[0].value)[:90] if r else '?'}", construct="return [EventContractDiscontinued(time=self.expiry, contract=self)]")
     fc = an.fa("FutureChain.make_events")
-    loops = [n for n in walk_function(fc.f.node) if isinstance(n, ast.For)]
-    ok = len(loops) == 1 and ast.unparse(loops[0].iter) == "self.contracts" and not any(isinstance(x, (ast.If, ast.Continue, ast.Break)) for x in ast.walk(loops[0]))
-    ext = [c for c in fc.calls_named("extend")] + [c for c in fc.calls_named("append")]
-    ok = ok and len(ext) == 1 and len(ext[0].args) == 1 and isinstance(loops[0].target, ast.Name) \
-        and fc.sym.canon(ext[0].args[0]) == specv(fc, f"{loops[0].target.id}.make_events()", fc.node_of(ext[0]).id).key()
-    rets = returns_in(fc)
-    ok = ok and len(rets) == 1 and isinstance(ext[0].func.value, ast.Name) and fc.sym.canon(rets[0].value) == fc.sym.canon(ext[0].func.value)
-    ck.check(ok, "ARGFLOW", "S5.chain-covers-all-contracts", fc.f.short, fc.f.loc, "the chain returns the discontinuation events of every contract it lists", "FutureChain.make_events does not cover all self.contracts",
+    # value id of what is returned: the events of every listed contract, concatenated in order (an accumulation loop with
+    # extend, itertools.chain and the nested comprehension are one and the same after normalisation)
+    rc = ret_canons_plain(fc)
+    want = specv(fc, "[e for f in self.contracts for e in f.make_events()]").key()
+    ck.check(rc == [want], "ARGFLOW", "S5.chain-covers-all-contracts", fc.f.short, fc.f.loc, "the chain returns the discontinuation events of every contract it lists", f"FutureChain.make_events returns {rc}; specified {want}",
              construct="for future in self.contracts: events.extend(future.make_events())")
     fe = an.fa("TradingEnv.__init__")
     mk = [c for c in fe.calls_named("make_events")]
